@@ -4,14 +4,35 @@ NOOP = '''        if mask_observed_with_missing_temperature:
 '''
 FIXED = '''        if mask_observed_with_missing_temperature and "observed" in dropped_rows.columns:
             dropped_rows = dropped_rows.copy()
-            dropped_rows.loc[dropped_rows["temperature"].isna(), "observed"] = np.nan
+            # a non-finite temperature is dropped before prediction like a missing one
+            no_temperature = dropped_rows["temperature"].isna() | dropped_rows[
+                "temperature"
+            ].isin([np.inf, -np.inf])
+            dropped_rows.loc[no_temperature, "observed"] = np.nan
 '''
 VARIANTS = [
     # the repaired tree's .loc store and the equivalent Series.mask form are both accepted
     dict(id="c07-benign-mask-form", property="C07", kind="benign", file=D, old=FIXED,
          new='''        if mask_observed_with_missing_temperature and "observed" in dropped_rows.columns:
-            missing_T = dropped_rows["temperature"].isna()
+            missing_T = ~np.isfinite(dropped_rows["temperature"])
             dropped_rows["observed"] = dropped_rows["observed"].mask(missing_T)
+'''),
+    # F27 (fixed bcf1a275): days whose temperature is +-inf are dropped like days without temperature and must lose their usage too
+    dict(id="c07-regress-only-nan-temperature-masked", property="C07", kind="break", expect_rule="R07.2", expect_key="mask-observed-where-temperature-not-finite", file=D, old=FIXED,
+         new='''        if mask_observed_with_missing_temperature and "observed" in dropped_rows.columns:
+            dropped_rows = dropped_rows.copy()
+            dropped_rows.loc[dropped_rows["temperature"].isna(), "observed"] = np.nan
+'''),
+    dict(id="c07-only-positive-inf-masked", property="C07", kind="break", expect_rule="R07.2", expect_key="mask-observed-where-temperature-not-finite", file=D, old=FIXED,
+         new='''        if mask_observed_with_missing_temperature and "observed" in dropped_rows.columns:
+            dropped_rows = dropped_rows.copy()
+            dropped_rows.loc[dropped_rows["temperature"].isna() | (dropped_rows["temperature"] == np.inf), "observed"] = np.nan
+'''),
+    dict(id="c07-benign-mask-by-isinf", property="C07", kind="benign", file=D, old=FIXED,
+         new='''        if mask_observed_with_missing_temperature and "observed" in dropped_rows.columns:
+            dropped_rows = dropped_rows.copy()
+            unusable = dropped_rows["temperature"].isna() | np.isinf(dropped_rows["temperature"])
+            dropped_rows.loc[unusable, "observed"] = np.nan
 '''),
     # on the repaired tree: regressions
     dict(id="c07-regress-chained-noop", property="C07", kind="break", expect_rule="R07.1", file=D, old=FIXED, new=NOOP),
